@@ -699,10 +699,10 @@ impl<C: OrdColl> OrdExec<C> {
             if let Err(e) = snap::check_slots(&s) {
                 return Err(Fail::new("slots", format!("{} | {}", e, Self::describe(&s))));
             }
-            let bound = 4 * (self.peak + 1) + self.hint.max(8);
+            let bound = snap::slots_bound(self.peak, self.hint);
             rep.counters.max("max_buffer_len_seen", s.slots.len() as u64);
             if s.slots.len() > bound {
-                return Err(Fail::new("slots-bound", format!("arena has {} slots, peak population {} (bound 4*(peak+1)+max(hint,8) = {})", s.slots.len(), self.peak, bound)));
+                return Err(Fail::new("slots-bound", format!("arena has {} slots, peak population {} (bound 8*(peak+1)+2*max(hint,8)+64 = {})", s.slots.len(), self.peak, bound)));
             }
             if was_clear && (s.root != EMPTY_REF || s.free.len() != s.slots.len() - 1) {
                 return Err(Fail::new("slots-clear", format!("after clear: root {} and {} of {} slots free", s.root as i32, s.free.len(), s.slots.len() - 1)));
